@@ -387,3 +387,25 @@ Proof.
   - apply forest_ok_cons in H. destruct H as (H1 & H2 & H3).
     pose proof (cnt_atom_bound f k top H2). specialize (IH _ _ H3). cbn [cnt_forest]. lia.
 Qed.
+
+(* ------------------------------------------------------------------ nesting depth *)
+Lemma height_node n o l h ks : mp4_height (MAtom n o l h (Some ks)) = 1 + mp4_forest_height ks.
+Proof. reflexivity. Qed.
+Lemma height_leaf n o l h : mp4_height (MAtom n o l h None) = 1.
+Proof. reflexivity. Qed.
+Lemma height_pos a : 1 <= mp4_height a.
+Proof.
+  induction a as [n o l h|n o l h ks IH] using mp4_atom_ind'; [rewrite height_leaf; lia|].
+  rewrite height_node. assert (0 <= mp4_forest_height ks); [|lia].
+  clear IH. induction ks as [|k r IHr]; cbn [mp4_forest_height]; lia.
+Qed.
+Lemma forest_height_nonneg l : 0 <= mp4_forest_height l.
+Proof. induction l as [|k r IH]; cbn [mp4_forest_height]; lia. Qed.
+Lemma forest_height_app a b : mp4_forest_height (a ++ b) = Z.max (mp4_forest_height a) (mp4_forest_height b).
+Proof.
+  induction a as [|k r IH]; cbn [app mp4_forest_height]; [pose proof (forest_height_nonneg b); lia|]. rewrite IH. lia.
+Qed.
+Lemma forest_height_cons k r : mp4_forest_height (k :: r) = Z.max (mp4_height k) (mp4_forest_height r).
+Proof. reflexivity. Qed.
+Lemma height_kids a ks : ma_kids a = Some ks -> mp4_height a = 1 + mp4_forest_height ks.
+Proof. destruct a as [n o l h [k|]]; cbn [ma_kids]; intros E; [inversion E; subst; apply height_node|discriminate]. Qed.
